@@ -37,12 +37,21 @@ struct FCb
 };
 } // namespace
 
+tapkee::TapkeeOutput& carried_output()
+{
+    static thread_local tapkee::TapkeeOutput held;
+    return held;
+}
+
 tapkee::TapkeeOutput embed_uniform(std::vector<int>& indices, VCallbacks& cb, tapkee::ParametersSet params)
 {
     KCb k{&cb};
     DCb d{&cb};
     FCb f{&cb};
-    return tapkee::embed(indices.begin(), indices.end(), k, d, f, params);
+    // assigned over the previous call's result (result = tapkee::embed(...)), then copied out
+    tapkee::TapkeeOutput& held = carried_output();
+    held = tapkee::embed(indices.begin(), indices.end(), k, d, f, params);
+    return held;
 }
 
 void classify_current_exception(Outcome& o)
